@@ -544,7 +544,8 @@ def r19_4(ctx, counts: dict[str, int]) -> RuleResult:
                     sites.append(n)
         if not sites:
             continue
-        cfg = CFG(f.node)
+        from ..engine.cfg import calls_may_raise
+        cfg = CFG(f.node, calls_may_raise)
         facts = branch_facts(cfg)
         for n in sites:
             sinks += 1
